@@ -27,7 +27,8 @@ F_STATIC_TERM = "C04-F2"  # static N-Term/C-Term rule counted once per residue i
 
 def scenarios(tier: str) -> List[Dict[str, Any]]:
     out = []
-    seqs = ["P", "PE", "SEK", "TIDE"] if tier == "quick" else ["P", "PE", "SEK", "TIDE", "KSTRN", "MQDESK"]
+    # EPE: both terminal residues occur again inside (residue-keyed caches/lookups that forget the terminus)
+    seqs = ["P", "PE", "EPE", "SEK", "TIDE"] if tier == "quick" else ["P", "PE", "EPE", "SEK", "TIDE", "KSTRN", "MQDESK", "KSTKSK"]
     ion_sets = [[t] for t in ALL16] + [list(FWD + BWD), list(ALL16)]
     charge_sets = [[1], [2], [1, 2], [1, 3, 4]]
     iso_sets = [[0], 0, [0, 1], [2, 3]]
@@ -42,7 +43,9 @@ def scenarios(tier: str) -> List[Dict[str, Any]]:
         {"static": [[["FIRST"], [["num", "v4", 1]]]]},
         {"static": [[["N-Term"], [["num", "v5", 1]]]]},
         {"static": [[["C-Term"], [["num", "v6", 1]]]]},
-        {"nterm": [["num", "v0", 1]], "cterm": [["num", "v1", 1]], "internal": {"0": [["num", "v2", 2]], "L": [["unimod", "Acetyl", 1]]},
+        # the last residue's modification is registered before the first one's: an annotation object's modification dict is in
+        # insertion order, not position order (reverse(), add_internal_mod in any order, constructor dicts)
+        {"nterm": [["num", "v0", 1]], "cterm": [["num", "v1", 1]], "internal": {"L": [["unimod", "Acetyl", 1]], "0": [["num", "v2", 2]]},
          "static": [[["LAST"], [["formula", "H-2O", 1]]]]},
         {"labile": [["num", "v7", 1]], "internal": {"0": [["glycan", "Hex2", 1]]}},
     ]
@@ -387,7 +390,7 @@ def run(tier: str, seed: int, only=None) -> Report:
                     "neutral mass and m/z with the mass calculator run on the ion's own serialized sequence (token round trip S7) and "
                     "with an independent sum of parts; the five other return types and the cached Fragmenter must be projections.",
         functions=FUNCS,
-        bounds="peptides " + ("P, PE, SEK, TIDE" if tier == "quick" else "P, PE, SEK, TIDE, KSTRN, MQDESK") + "; each single ion type, the six "
+        bounds="peptides " + ("P, PE, EPE, SEK, TIDE" if tier == "quick" else "P, PE, EPE, SEK, TIDE, KSTRN, MQDESK, KSTKSK") + "; each single ion type, the six "
                "terminal types together, all 16 together; charge lists within [1,4]; isotope lists within [0,3]; water/ammonia/custom "
                "regex losses with max_losses 1..3; terminal, residue, static (residue, N-Term, C-Term) and labile modifications; mono/avg",
         outside="precision != None (S6 only in C02); peptides longer than 6; isotope-label global modifications (C12); loss values are concrete "
